@@ -37,6 +37,8 @@ def configs(tier, seed):
             for nu, rho in grid:
                 out.append({"name": "zoom-%s-d%d-T%d-nu%s-rho%s" % (part, d, T, nu, rho), "algo": "Zooming", "part": part, "d": d, "T": T,
                             "params": {"nu": nu, "rho": rho}, "cost": T * arity(part, d) * d})
+    for c in c01.modeb_configs(tier, ["Zooming"], parts=("B", "K3", "RB", "DB", "K4")):
+        out.append(dict(c, name="zoom-" + c["name"]))
     out.append({"name": "twin-zoom", "algo": "Zooming", "part": "B", "d": 1, "T": 2, "params": {}, "twin": True, "expect_fail": "twin"})
     return out
 
